@@ -106,6 +106,120 @@ theorem redact_frame (h h' : Heap) (p q : Ptr) (u : URL)
       · intro v hv
         simp [Heap.get] at hv
 
+/-- **redact_fresh.**  For a URL with userinfo the returned pointer is fresh: it is the next
+address of the allocator, it is none of the pointers allocated before the call (in particular
+not the input and not the result of an earlier call), and it is allocated afterwards. -/
+theorem redact_fresh (h h' : Heap) (p q : Ptr) (u : URL)
+    (hp : h.get p = .ok u) (hu : u.user ≠ none) (hr : redact h p = .ok (h', q)) :
+    q = some h.cells.length ∧ ¬ h.Allocated q ∧ (∀ p', h.Allocated p' → q ≠ p') ∧
+    h'.Allocated q ∧ h'.cells.length = h.cells.length + 1 := by
+  cases hus : u.user with
+  | none => exact absurd hus hu
+  | some ui =>
+    rw [redact_some h p u ui hp hus] at hr
+    simp only [Heap.alloc, Except.ok.injEq, Prod.mk.injEq] at hr
+    obtain ⟨rfl, rfl⟩ := hr
+    have hna : ¬ h.Allocated (some h.cells.length) := by
+      rw [allocated_iff]
+      rintro ⟨a, ha, hlt⟩
+      cases ha
+      exact Nat.lt_irrefl _ hlt
+    refine ⟨rfl, hna, ?_, ?_, by simp⟩
+    · intro p' hp' heq
+      exact hna (heq ▸ hp')
+    · rw [allocated_iff]
+      exact ⟨_, rfl, by simp⟩
+
+/-- **redact_again.**  The result belongs to the caller.  Redact a URL with userinfo; then
+let the callers do anything to the heap — any stores through the returned pointer or any
+other pointer but the input, any new URLs; then redact the same input again.  The second
+call does not panic, its result is a pointer that was not allocated before it (so it is
+neither the first result nor anything the callers hold), it points to the very value the
+first result pointed to when it was returned — hence the same `String()`, for every
+`String` function — and the input is as it was after each of the three steps. -/
+theorem redact_again (render : Option Userinfo → Rest → Bytes) (h h₁ h₂ : Heap) (p q₁ : Ptr)
+    (u : URL) (ms : List Mut)
+    (hp : h.get p = .ok u) (hu : u.user ≠ none) (hr₁ : redact h p = .ok (h₁, q₁))
+    (hno : NoStoreTo p ms) (hm : h₁.apply ms = .ok h₂) :
+    ∃ h₃ q₂ r, redact h₂ p = .ok (h₃, q₂) ∧
+      h₁.get q₁ = .ok r ∧ h₃.get q₂ = .ok r ∧
+      render r.user r.rest = render (some redactedUserinfo) u.rest ∧
+      q₂ ≠ q₁ ∧ q₂ ≠ p ∧ ¬ h₂.Allocated q₂ ∧
+      h₁.get p = .ok u ∧ h₂.get p = .ok u ∧ h₃.get p = .ok u := by
+  cases hus : u.user with
+  | none => exact absurd hus hu
+  | some ui =>
+    obtain ⟨hq₁, -, -, -, hlen₁⟩ := redact_fresh h h₁ p q₁ u hp hu hr₁
+    rw [redact_some h p u ui hp hus] at hr₁
+    simp only [Except.ok.injEq] at hr₁
+    have hh₁ : h₁ = (h.alloc { u with user := some redactedUserinfo }).1 := by rw [hr₁]
+    have hq₁' : (h.alloc { u with user := some redactedUserinfo }).2 = q₁ := by rw [hr₁]
+    subst hh₁
+    have hp₁ : (h.alloc { u with user := some redactedUserinfo }).1.get p = .ok u :=
+      alloc_preserves h _ p u hp
+    obtain ⟨hp₂, hle⟩ := apply_get_other _ h₂ ms p u hm hno hp₁
+    have hr₂ := redact_some h₂ p u ui hp₂ hus
+    obtain ⟨hq₂, hna₂, hfresh₂, -, -⟩ :=
+      redact_fresh h₂ _ p _ u hp₂ hu hr₂
+    refine ⟨_, _, { u with user := some redactedUserinfo }, hr₂, ?_, alloc_get h₂ _, rfl, ?_, ?_,
+      hna₂, hp₁, hp₂, alloc_preserves h₂ _ p u hp₂⟩
+    · rw [← hq₁']; exact alloc_get h _
+    · rw [hq₂, hq₁]
+      intro heq
+      simp only [Option.some.injEq] at heq
+      omega
+    · exact hfresh₂ p ⟨u, hp₂⟩
+
+/-- `redact_again` for the case the harness exercises: every field of the first result is
+overwritten, any number of times (`ws` are the values the object goes through). -/
+theorem redact_again_after_writes (render : Option Userinfo → Rest → Bytes) (h h₁ : Heap)
+    (p q₁ : Ptr) (u : URL) (ws : List URL)
+    (hp : h.get p = .ok u) (hu : u.user ≠ none) (hr₁ : redact h p = .ok (h₁, q₁)) :
+    ∃ h₂ h₃ q₂ r, h₁.apply (ws.map (Mut.store q₁)) = .ok h₂ ∧ redact h₂ p = .ok (h₃, q₂) ∧
+      h₁.get q₁ = .ok r ∧ h₃.get q₂ = .ok r ∧ q₂ ≠ q₁ ∧
+      h₂.get q₁ = .ok (ws.getLast?.getD r) ∧ h₃.get q₁ = .ok (ws.getLast?.getD r) ∧
+      h₃.get p = .ok u := by
+  obtain ⟨hq₁, -, hne, ⟨r, hr⟩, hlen⟩ := redact_fresh h h₁ p q₁ u hp hu hr₁
+  -- the stores through `q₁` all succeed and leave the last value there
+  have hstores : ∀ (ws : List URL) (g : Heap) (v : URL), g.get q₁ = .ok v →
+      ∃ g', g.apply (ws.map (Mut.store q₁)) = .ok g' ∧ g'.get q₁ = .ok (ws.getLast?.getD v) := by
+    intro ws
+    induction ws with
+    | nil => intro g v hv; exact ⟨g, rfl, by simpa using hv⟩
+    | cons w rest ih =>
+      intro g v hv
+      have hlt : h.cells.length < g.cells.length := by
+        have := (allocated_iff g q₁).1 ⟨v, hv⟩
+        obtain ⟨a, ha, hlt⟩ := this
+        rw [hq₁] at ha; cases ha; exact hlt
+      have hs : g.set q₁ w = .ok { cells := g.cells.set h.cells.length w } := by
+        rw [hq₁]; simp [Heap.set, hlt]
+      have hg : ({ cells := g.cells.set h.cells.length w } : Heap).get q₁ = .ok w := by
+        rw [hq₁]; simp [Heap.get, hlt]
+      obtain ⟨g', hg', hv'⟩ := ih _ w hg
+      refine ⟨g', ?_, ?_⟩
+      · simp only [List.map_cons, Heap.apply, hs]; exact hg'
+      · rw [hv']
+        cases rest with
+        | nil => simp
+        | cons x xs =>
+          cases hl : (x :: xs).getLast? with
+          | none => simp at hl
+          | some y => simp [List.getLast?_cons_cons, hl]
+  obtain ⟨h₂, hm, hv₂⟩ := hstores ws h₁ r hr
+  have hno : NoStoreTo p (ws.map (Mut.store q₁)) := by
+    intro q v hmem
+    simp only [List.mem_map] at hmem
+    obtain ⟨w, -, hw⟩ := hmem
+    cases hw
+    exact hne p ⟨u, hp⟩
+  obtain ⟨h₃, q₂, r', hr₂, hr', hget₂, -, hne₂, -, -, -, hp₂, hp₃⟩ :=
+    redact_again render h h₁ h₂ p q₁ u _ hp hu hr₁ hno hm
+  rw [hr] at hr'
+  cases hr'
+  obtain ⟨-, -, -, -, -, hpres, -⟩ := redact_frame h₂ h₃ p q₂ u hp₂ hr₂
+  exact ⟨h₂, h₃, q₂, r, hm, hr₂, hr, hget₂, hne₂, hv₂, hpres q₁ _ hv₂, hp₃⟩
+
 /-! ### `RedactUserinfoInURLError` -/
 
 /-- A top-level (non-nil) `*url.Error` gets its URL text replaced by `String()` of the
@@ -239,6 +353,26 @@ example :
 example : ∃ h' q, redact ⟨[ua, ub]⟩ (some 0) = .ok (h', q) ∧ q = some 2 ∧ h'.get (some 0) = .ok ua := by
   exact ⟨_, _, rfl, rfl, rfl⟩
 example : redact ⟨[{ ua with user := none }]⟩ (some 0) = .ok (⟨[{ ua with user := none }]⟩, some 0) := rfl
+-- `redact_fresh` / `redact_again`: redact, scribble over the result (twice) and allocate, then
+-- redact the same input again: a new pointer to the same redacted value; the scribbled-over first
+-- result and the input stay as they are
+example : NoStoreTo (some 0) [.store (some 1) ub, .new ub, .store (some 1) { ub with user := none }] := by
+  intro q v hm
+  simp only [List.mem_cons, List.not_mem_nil, or_false] at hm
+  rcases hm with hm | hm | hm <;> cases hm <;> decide
+example :
+    ∃ h₁ h₂ h₃, redact ⟨[ua]⟩ (some 0) = .ok (h₁, some 1) ∧ h₁.get (some 1) = .ok (redactVal ua) ∧
+      h₁.apply [.store (some 1) ub, .new ub, .store (some 1) { ub with user := none }] = .ok h₂ ∧
+      redact h₂ (some 0) = .ok (h₃, some 3) ∧ h₃.get (some 3) = .ok (redactVal ua) ∧
+      h₃.get (some 1) = .ok { ub with user := none } ∧ h₃.get (some 0) = .ok ua ∧
+      ¬ h₂.Allocated (some 3) := by
+  refine ⟨_, _, _, rfl, rfl, rfl, rfl, rfl, rfl, rfl, ?_⟩
+  rw [allocated_iff]
+  rintro ⟨a, ha, hlt⟩
+  cases ha
+  exact absurd hlt (by decide)
+-- a store through nil panics
+example : (⟨[ua]⟩ : Heap).apply [.store none ub] = .error .nilDeref := rfl
 -- `urlError_redacted` fires on a concrete error and changes its text
 example :
     (redactInURLError (fun _ _ => ascii "R") ⟨[ua]⟩ (some 0) (.urlError ⟨ascii "Get", ascii "old", 7⟩)).toOption.map (·.2)
